@@ -1147,6 +1147,11 @@ def italic_fn(ctx: "Wtp", token: str) -> None:
     if node.kind in (NodeKind.TEMPLATE, NodeKind.TEMPLATE_ARG):
         return text_fn(ctx, token)
 
+    # Directly inside a table or a table row there are only attributes;
+    # '' there is an empty attribute value (a=''), not an italic marker
+    if node.kind in (NodeKind.TABLE, NodeKind.TABLE_ROW):
+        return text_fn(ctx, token)
+
     if not _parser_have(ctx, NodeKind.ITALIC) or node.kind in (NodeKind.LINK,):
         # Push new formatting node
         _parser_push(ctx, NodeKind.ITALIC)
